@@ -45,7 +45,7 @@ function reset() {
   if (CFG.twin === "s2dlive") {
     // sparse array holding 1100 live elements: the first new element switches it to dense storage in the middle of
     // the operation that adds it (sparseArrayObject.expand)
-    BASE = 1100;
+    BASE = CFG.base || 1100;
     A[20000] = 1;
     for (var i = 0; i < BASE; i++) A[i] = 0;
     A.length = BASE;
